@@ -5,6 +5,7 @@ import argparse
 import importlib
 import os
 import sys
+import threading
 import traceback
 
 from harness import common
@@ -22,6 +23,7 @@ def main() -> int:
 	replay = os.path.abspath(args.replay) if args.replay else None
 	os.chdir(common.REPO)
 	ctx = common.Ctx(prop, args.tier, seed, replay)
+	_watchdog(prop, args.tier, ctx)
 	try:
 		mod = importlib.import_module(f'harness.{prop.lower()}')
 		if replay:
@@ -36,6 +38,50 @@ def main() -> int:
 		print(f'[{prop}] INFRASTRUCTURE FAILURE: harness crashed', file=sys.stderr)
 		ctx.cleanup()
 		return 2
+
+
+def _kill_descendants(root: int) -> None:
+	try:
+		children: dict[int, list[int]] = {}
+		for name in os.listdir('/proc'):
+			if name.isdigit():
+				try:
+					with open(f'/proc/{name}/stat') as f:
+						ppid = int(f.read().rsplit(')', 1)[1].split()[1])
+					children.setdefault(ppid, []).append(int(name))
+				except Exception:
+					pass
+		todo, victims = [root], []
+		while todo:
+			for c in children.get(todo.pop(), []):
+				victims.append(c)
+				todo.append(c)
+		for v in victims:
+			try:
+				os.kill(v, 9)
+			except Exception:
+				pass
+	except Exception:
+		pass
+
+
+def _watchdog(prop: str, tier: str, ctx: 'common.Ctx') -> None:
+	"""Last line of defence against a check that does not end (a mutated parser that loops, a stuck child): after the wall budget
+	the process reports an infrastructure failure (exit 2, never a verdict) and ends with its children. The searches have their own,
+	much smaller per-case budgets that turn a non-terminating input into a finding; this only bounds the command itself."""
+	limit = float(os.environ.get('VERIF_WALL_LIMIT', '') or (2400 if tier == 'quick' else 7200))
+
+	def fire() -> None:
+		print(f'[{prop}] INFRASTRUCTURE FAILURE: wall budget of {limit:.0f} s exceeded (VERIF_WALL_LIMIT)', file=sys.stderr, flush=True)
+		try:
+			ctx.cleanup()
+		finally:
+			_kill_descendants(os.getpid())
+			os._exit(2)
+
+	t = threading.Timer(limit, fire)
+	t.daemon = True
+	t.start()
 
 
 if __name__ == '__main__':
